@@ -494,6 +494,33 @@ def _root_history():
 _root_history()
 
 # ------------------------------------------------------------------------------------------------
+# hier4: hier3 wrapped once more (Top4 -> Top -> Mid -> Leaf); event e6 has rows in the innermost machine only, three
+# submachine levels below the machine that receives it
+def _hier4():
+    import copy
+    inner = copy.deepcopy(ZOO['hier3'].root)
+    leaf = inner.state('Mid').sub.state('Leaf').sub
+    leaf.rows += [R('L1', 'e6', 'L2'), R('L2', 'e6', 'L1', a=False)]
+    reg(Zoo(
+        name='hier4',
+        events=['e1', 'e2', 'e3', 'e4', 'e5', 'e6'],
+        root=Machine(
+            'Top4',
+            states=[S('O1'), S('Top', kind='sub', sub=inner), S('O2')],
+            initial=['O1'],
+            rows=[
+                R('O1', 'e3', 'Top', a=False, g=False),
+                R('Top', 'e4', 'O2'),
+                R('O2', 'e3', 'Top', a=False),
+                R('O2', 'e1', 'O1', a=False, g=False),
+            ],
+        ),
+    ))
+
+
+_hier4()
+
+# ------------------------------------------------------------------------------------------------
 # flags3: three nesting levels; F1 is carried only by a state of the innermost machine (no direct state of the
 # middle machine carries it), F2 by states of the root and of the middle machine, F3 at the innermost and middle level
 def _flags3():
